@@ -360,6 +360,8 @@ end Hts.Model.Csi
 namespace Hts.Model.IndexIO
 open Hts.Model.Index Hts.Model.Csi
 
+instance (x : Int) : Decidable (OffOK x) := by unfold OffOK; infer_instance
+
 /-- the bin-count clause `CRefBounds.nb` (what `csi.readBins` checks: at most every bin of the geometry plus the
 pseudo-bin), bin numbers pairwise distinct and below the bin limit: for EVERY sequence of `Add` calls on a fresh
 index of depth ≤ 10, any minimum shift, no hypothesis on the records -/
